@@ -155,7 +155,9 @@ func c05DeclaredSizeSSA(c *Ctx) (bool, string) {
 	if write == nil {
 		return false, "the fieldDef value is not handed to binary.Write"
 	}
-	norm := func(v ssa.Value) string { return strings.ReplaceAll(stripAddrs(pathOf(v)), modPath+"/internal/types.", "types.") }
+	norm := func(v ssa.Value) string {
+		return strings.ReplaceAll(stripAddrs(pathOf(v)), modPath+"/internal/types.", "types.")
+	}
 	isBaseOfRow := func(v ssa.Value) (string, bool) {
 		p := norm(v)
 		const pre = "call[(types.Fit).BaseType](*"
